@@ -34,6 +34,38 @@
 (*   Tight         (documented model only) a single mutation of a cell     *)
 (*                 NOT required to be independent does change the original:*)
 (*                 the requirement demands exactly the documented depth    *)
+(* HISTORIES (Mode = "hist"): the laws of == and hash() hold at ANY point  *)
+(* of the life of an object, i.e. also after it has been hashed (put into  *)
+(* a set, looked up in a dict) and modified since.  Actions on the root    *)
+(* graph itself (no copy involved):                                        *)
+(*   HHash(p)      hash() of the object / dictionary cell reached along p: *)
+(*                 an observation; in a code-shaped variant with a hash    *)
+(*                 CACHE it stores the value in every dictionary cell it   *)
+(*                 visits (NocaseDict.__hash__ is what the CIM objects'    *)
+(*                 __hash__ calls for their child dictionaries)            *)
+(*   HMut(p, mu)   a dictionary cell: every mutator of NocaseDict, mu in   *)
+(*                 setitem / delitem / pop / popitem / clear / update /    *)
+(*                 setdefault; an object or list cell: "set" (attribute    *)
+(*                 rebinding / element change) or "drop" - in particular   *)
+(*                 the IN-PLACE change of a child object that is reachable *)
+(*                 from a hashed object (inst.properties['P'].value = x)   *)
+(* Invariant HashLawful, evaluated after every step: the hash the object   *)
+(* reports now equals the hash of a FRESHLY BUILT equal object (which has  *)
+(* no history, hence no cache): a == b => hash(a) == hash(b).              *)
+(* Switch HashCache: "never" (emission only, see EmitBeh),                  *)
+(* "none" (the code: the hash is computed from the       *)
+(* current state on every call), "subset" (cached in the dictionary,       *)
+(* dropped in __setitem__/__delitem__/pop - and so in update/setdefault -  *)
+(* but NOT in the inherited clear()/popitem()), "all" (dropped by every    *)
+(* mutator of the dictionary itself: still stale after an in-place change  *)
+(* of a contained object).  Both cached variants must violate HashLawful.  *)
+(*                                                                         *)
+(* The unnamed key: a keybindings dictionary may hold an item under the    *)
+(* key None (kid "#u").  Switch CopyViaCtor: NocaseDict.copy() re-inserts  *)
+(* the items through the constructor, while the new dictionary still       *)
+(* rejects the unnamed key: copy() RAISES for such a dictionary (must      *)
+(* violate CopyEqual).                                                     *)
+(*                                                                         *)
 (* Regression switches (must violate Independence):                        *)
 (*   ShallowChildDict  .copy() passes the child dictionaries through       *)
 (*   SharedPath        CIMInstance.copy() assigns the path without copying *)
@@ -44,13 +76,19 @@
 EXTENDS CimEq
 
 CONSTANTS MaxRef, MaxMut, Roots, ShallowChildDict, SharedPath,
-          EmptyListPassThrough, Emit
+          EmptyListPassThrough, Emit,
+          Mode,          \* "copy" | "hist"
+          HashCache,     \* "none" | "subset" | "all"
+          CopyViaCtor    \* BOOLEAN
 
 VARIABLES heap, orig, cpy, abs0, hist, allmust
 vars == <<heap, orig, cpy, abs0, hist, allmust>>
 
-Free == [t |-> "free", kind |-> "", val |-> "", kids |-> <<>>]
-Cell(t, kind) == [t |-> t, kind |-> kind, val |-> "v0", kids |-> <<>>]
+(* hc: the cached hash of a dictionary cell, <<>> = none, <<value>> *)
+Free == [t |-> "free", kind |-> "", val |-> "", kids |-> <<>>, hc |-> <<>>]
+Cell(t, kind) == [t |-> t, kind |-> kind, val |-> "v0", kids |-> <<>>,
+                  hc |-> <<>>]
+Raised == MaxRef + 1     \* "reference" returned by a copy that raised
 NextFree(h) == CHOOSE r \in 1..MaxRef : h[r].t = "free" /\ \A q \in 1..(r - 1) : h[q].t # "free"
 
 (* ---- tree terms for the initial object graphs ---- *)
@@ -80,6 +118,13 @@ tClass == T("O", "Class", <<K("path", tCName),
 tQDecl == T("O", "QualifierDeclaration",
             <<K("value", T("L", "", <<>>)), K("scopes", T("D", "", <<>>))>>)
 tDict == T("D", "NocaseDict", <<K("#k", tQual)>>)
+(* dictionaries holding the unnamed key (None): a reference keybinding     *)
+(* without a name, as pywbem builds it for KEYVALUE / VALUE.REFERENCE      *)
+(* without KEYBINDING in a server response                                 *)
+tDictU == T("D", "NocaseDict", <<K("#u", tRef)>>)
+tINameU == T("O", "InstanceName", <<K("kb", T("D", "", <<K("#u", tRef)>>))>>)
+tInstU == T("O", "Instance", <<K("path", tINameU),
+                                K("props", T("D", "", <<K("#k", tPropRef)>>))>>)
 (* array-valued objects whose array is empty *)
 tEmptyL == T("L", "empty", <<>>)
 tQualE == T("O", "Qualifier", <<K("value", tEmptyL)>>)
@@ -105,10 +150,14 @@ RootTree(r) ==
     [] r = "ParameterEmpty" -> tParmE
     [] r = "QualifierEmpty" -> tQualE
     [] r = "QualifierDeclarationEmpty" -> tQDeclE
+    [] r = "NocaseDictUnnamed" -> tDictU
+    [] r = "InstanceNameUnnamed" -> tINameU
+    [] r = "InstanceUnnamed" -> tInstU
 AllRoots == {"InstanceName", "ClassName", "Instance", "Class", "Property",
              "PropertyObj", "PropertyRef", "Method", "Parameter", "Qualifier",
              "QualifierDeclaration", "NocaseDict", "PropertyEmpty",
-             "ParameterEmpty", "QualifierEmpty", "QualifierDeclarationEmpty"}
+             "ParameterEmpty", "QualifierEmpty", "QualifierDeclarationEmpty",
+             "NocaseDictUnnamed", "InstanceNameUnnamed", "InstanceUnnamed"}
 
 RECURSIVE Load(_, _), LoadKids(_, _, _, _)
 Load(h, tr) ==      \* <<heap, ref>>
@@ -140,7 +189,10 @@ IsDictSlot(key) == key \in {"kb", "props", "quals", "meths", "params", "scopes"}
 
 RECURSIVE Mid(_, _), MidKids(_, _, _, _, _)
 Mid(h, r) ==        \* the documented .copy()
-  IF h[r].t # "O" THEN Shallow(h, r)          \* NocaseDict.copy()
+  IF h[r].t # "O"                              \* NocaseDict.copy()
+  THEN IF CopyViaCtor /\ \E i \in 1..Len(h[r].kids) : h[r].kids[i].key = "#u"
+       THEN <<h, Raised>>                      \* ValueError: unnamed key
+       ELSE Shallow(h, r)
   ELSE LET n == NextFree(h)
            h1 == [h EXCEPT ![n] = [h[r] EXCEPT !.kids = <<>>]]
            res == MidKids(h1, h[r].kind, h[r].kids, 1, <<>>) IN
@@ -194,6 +246,9 @@ RootKind(r) ==
     [] r = "ParameterEmpty" -> "Parameter"
     [] r = "QualifierEmpty" -> "Qualifier"
     [] r = "QualifierDeclarationEmpty" -> "QualifierDeclaration"
+    [] r = "NocaseDictUnnamed" -> "NocaseDict"
+    [] r = "InstanceNameUnnamed" -> "InstanceName"
+    [] r = "InstanceUnnamed" -> "Instance"
     [] OTHER -> r
 
 Empty == [r \in 1..MaxRef |-> Free]
@@ -203,10 +258,12 @@ Init ==
     LET x == Load(Empty, RootTree(root)) IN
     /\ heap = x[1] /\ orig = x[2] /\ cpy = 0
     /\ abs0 = AbsState(x[1], x[2])
-    /\ hist = [root |-> root, m |-> "", muts |-> <<>>]
+    /\ hist = [root |-> root, m |-> IF Mode = "hist" THEN "hist" ELSE "",
+               muts |-> <<>>]
     /\ allmust = TRUE
 
 DoCopy(m) ==
+  /\ Mode = "copy"
   /\ cpy = 0
   /\ LET x == CopyBy(m, heap, orig) IN
      /\ heap' = x[1] /\ cpy' = x[2]
@@ -214,7 +271,7 @@ DoCopy(m) ==
   /\ UNCHANGED <<orig, abs0, allmust>>
 
 Mutate(p, v) ==
-  /\ cpy # 0 /\ Len(hist.muts) < MaxMut
+  /\ cpy \in 1..MaxRef /\ Len(hist.muts) < MaxMut
   /\ LET c == Follow(heap, cpy, p)
          st == StepsOf(heap, cpy, p) IN
      /\ IF v = "set" THEN heap' = [heap EXCEPT ![c].val = "mut" \o ToString(Len(hist.muts))]
@@ -227,15 +284,115 @@ Mutate(p, v) ==
      /\ allmust' = (allmust /\ MustIndep(hist.m, RootKind(hist.root), st))
   /\ UNCHANGED <<orig, cpy, abs0>>
 
+(* ---- histories: hash / mutate the root graph itself ---- *)
+DictMutators == {"setitem", "delitem", "pop", "popitem", "clear", "update",
+                 "setdefault"}
+(* mutators in which the cached variant "subset" drops the cache: the      *)
+(* overridden __setitem__ / __delitem__ / pop; update() and setdefault()   *)
+(* are implemented on top of __setitem__                                   *)
+DropsCache(mu) ==
+  CASE HashCache = "subset" -> mu \in {"setitem", "delitem", "pop", "update",
+                                       "setdefault"}
+    [] HashCache = "never" -> FALSE
+    [] OTHER -> TRUE
+
+(* the hash as the code-shaped variant reports it: a dictionary cell with  *)
+(* a cached value returns it, everything else is computed from the current *)
+(* content and the hashes the kids report; same shape as AbsState          *)
+RECURSIVE ImplH(_, _)
+ImplH(h, r) ==
+  IF h[r].t = "D" /\ h[r].hc # <<>> THEN h[r].hc[1]
+  ELSE [t |-> h[r].t, kind |-> h[r].kind, val |-> h[r].val,
+        kids |-> [i \in 1..Len(h[r].kids) |->
+                    [key |-> h[r].kids[i].key,
+                     sub |-> ImplH(h, h[r].kids[i].ref)]]]
+
+RECURSIVE Reach(_, _)
+Reach(h, r) == {r} \cup UNION { Reach(h, h[r].kids[i].ref)
+                                 : i \in 1..Len(h[r].kids) }
+(* hash(r) visits every cell below r; a caching dictionary stores its value *)
+Populate(h, r) ==
+  IF HashCache = "none" THEN h
+  ELSE LET rs == Reach(h, r) IN
+       [q \in DOMAIN h |->
+          IF q \in rs /\ h[q].t = "D" /\ h[q].hc = <<>>
+          THEN [h[q] EXCEPT !.hc = <<ImplH(h, q)>>] ELSE h[q]]
+
+HHash(p) ==
+  /\ Mode = "hist" /\ Len(hist.muts) < MaxMut
+  /\ LET c == Follow(heap, orig, p) IN
+     /\ heap[c].t \in {"O", "D"}
+     /\ heap' = Populate(heap, c)
+     /\ hist' = [hist EXCEPT !.muts = Append(@, [steps |-> StepsOf(heap, orig, p),
+                                               v |-> "hash", key |-> ""])]
+  /\ UNCHANGED <<orig, cpy, abs0, allmust>>
+
+HMut(p, mu) ==
+  /\ Mode = "hist" /\ Len(hist.muts) < MaxMut
+  /\ LET c == Follow(heap, orig, p)
+         cell == heap[c]
+         tok == "mut" \o ToString(Len(hist.muts))
+         nokid == cell.kids = <<>>
+         new ==
+           IF cell.t = "D"
+           THEN CASE mu \in {"setitem", "update", "setdefault"} ->
+                       [cell EXCEPT !.val = tok]
+                  [] mu \in {"delitem", "pop"} ->
+                       IF nokid THEN [cell EXCEPT !.val = tok]
+                       ELSE [cell EXCEPT !.kids = Tail(@)]
+                  [] mu = "popitem" ->
+                       IF nokid THEN [cell EXCEPT !.val = tok]
+                       ELSE [cell EXCEPT !.kids = SubSeq(@, 1, Len(@) - 1)]
+                  [] mu = "clear" ->
+                       [cell EXCEPT !.kids = <<>>, !.val = "clear"]
+           ELSE IF mu = "set" THEN [cell EXCEPT !.val = tok]
+           ELSE [cell EXCEPT !.kids = Tail(@)]
+         key == IF nokid \/ mu \in {"setitem", "update", "setdefault", "clear",
+                                     "set"} THEN ""
+                ELSE IF mu = "popitem" THEN cell.kids[Len(cell.kids)].key
+                ELSE cell.kids[1].key IN
+     /\ IF cell.t = "D" THEN mu \in DictMutators
+        ELSE /\ mu \in {"set", "drop"}
+             /\ mu = "drop" => ~nokid
+     /\ heap' = [heap EXCEPT ![c] =
+                   IF cell.t = "D" /\ DropsCache(mu)
+                   THEN [new EXCEPT !.hc = <<>>] ELSE new]
+     /\ hist' = [hist EXCEPT !.muts = Append(@, [steps |-> StepsOf(heap, orig, p),
+                                               v |-> mu, key |-> key])]
+  /\ UNCHANGED <<orig, cpy, abs0, allmust>>
+
 Next ==
   \/ \E m \in Methods : DoCopy(m)
-  \/ /\ cpy # 0
+  \/ /\ cpy \in 1..MaxRef
      /\ \E p \in Paths(heap, cpy, 6) : \E v \in {"set", "drop"} : Mutate(p, v)
+  \/ /\ Mode = "hist"
+     /\ \E p \in Paths(heap, orig, 6) :
+          \/ HHash(p)
+          \/ \E mu \in DictMutators \cup {"set", "drop"} : HMut(p, mu)
 
 Spec == Init /\ [][Next]_vars
 
-CopyEqual == (cpy # 0 /\ hist.muts = <<>>) => AbsState(heap, cpy) = abs0
-Independence == allmust => AbsState(heap, orig) = abs0
-Tight == (Len(hist.muts) = 1 /\ ~allmust) => AbsState(heap, orig) # abs0
-EmitBeh == (Emit /\ Len(hist.muts) >= 1) => PrintT(<<"BEH", hist>>)
+(* a == b => hash(a) == hash(b), b a freshly built object equal to the     *)
+(* current state of the root (no history: its hash is computed)            *)
+HashLawful == Mode = "hist" => ImplH(heap, orig) = AbsState(heap, orig)
+
+CopyEqual == (cpy # 0 /\ hist.muts = <<>>) =>
+               (cpy # Raised /\ AbsState(heap, cpy) = abs0)
+Independence == (Mode = "copy" /\ allmust) => AbsState(heap, orig) = abs0
+Tight == (Mode = "copy" /\ Len(hist.muts) = 1 /\ ~allmust) =>
+           AbsState(heap, orig) # abs0
+(* Emission.  Copy mode: every behaviour.  History mode: run with the most  *)
+(* fragile variant HashCache = "never" (a cache that is never dropped) and *)
+(* print exactly the histories after which THAT variant reports a stale    *)
+(* hash: these are the histories on which any caching of hash values can   *)
+(* be observed at all (something at or above the changed cell was hashed   *)
+(* before the change).  CacheOnlyAfterHash: in every variant no cache      *)
+(* exists before the first hash(), so the other histories cannot tell a    *)
+(* caching implementation from the computing one.                          *)
+Stale == ImplH(heap, orig) # AbsState(heap, orig)
+EmitBeh == (Emit /\ Len(hist.muts) >= 1 /\ (Mode = "hist" => Stale)) =>
+             PrintT(<<"BEH", hist>>)
+CacheOnlyAfterHash ==
+  (\A i \in 1..Len(hist.muts) : hist.muts[i].v # "hash") =>
+     \A q \in 1..MaxRef : heap[q].hc = <<>>
 =============================================================================
